@@ -56,7 +56,8 @@ def setup_impl_path():
 def reexec_if_needed():
     """Fix PYTHONHASHSEED (must be set before the interpreter starts)."""
     if os.environ.get("PYTHONHASHSEED") != "0":
-        env = dict(os.environ, PYTHONHASHSEED="0", OMP_NUM_THREADS=os.environ.get("OMP_NUM_THREADS", "2"))
+        env = dict(os.environ, PYTHONHASHSEED="0", OMP_NUM_THREADS=os.environ.get("OMP_NUM_THREADS", "1"),
+                   MKL_NUM_THREADS=os.environ.get("MKL_NUM_THREADS", "1"))
         os.execve(sys.executable, [sys.executable] + sys.argv, env)
 
 
